@@ -1,5 +1,10 @@
 package main
 
+import (
+	"fmt"
+	"strings"
+)
+
 // Lock / ownership / immutability discipline on heap accesses (C19, C07-A).
 // Declarations come from `decl` lines of the contract files.
 
@@ -7,9 +12,38 @@ func (fe *FE) checkGuard(st *State, loc *Loc, site, how string) {
 	fe.V.checkGuardImpl(fe, st, loc, site, how)
 }
 
-// guardOb: obligation that the access obeys the declared discipline.
-//   guarded_by <lockfield>   : the lock field of the same owner object is held
-//   guarded_by_param <name>  : ... (see below)
+// guardOb: obligation that the access obeys the declared discipline `guarded_by <lockfield>`:
+// the lock field of the same owner object is held, unless the owner was allocated by this
+// activation (not yet shared).
 func (fe *FE) guardOb(st *State, loc *Loc, decl, site, how string) {
-	// filled in with the C19 work
+	fs := strings.Fields(decl)
+	if len(fs) != 2 || fs[0] != "guarded_by" || len(loc.Idx) == 0 {
+		return
+	}
+	owner := loc.Idx[0]
+	if isFreshRefTerm(owner) {
+		return
+	}
+	lockFn := fe.V.guardLockFn[loc.Base]
+	if lockFn == "" {
+		return
+	}
+	fe.globalDecl(lockFn, fmt.Sprintf("(declare-fun %s (Int) Int)", lockFn))
+	lock := "(" + lockFn + " " + owner + ")"
+	held := sel(fe.heapTerm(st, "G_held", arraySort([]string{SInt}, SBool)), lock)
+	fe.addOb(st, "race", how+"."+strings.TrimPrefix(loc.Base, "F_")+"@"+site, []string{"C19"}, held, loc.Base+" is declared guarded_by "+fs[1]+": every access needs that lock held")
+}
+
+// guardedAccess: accesses to objects registered in st.guarded (cells of captured variables, maps loaded from
+// guarded fields, parameters named in a `guard` clause) need their lock.
+func (fe *FE) guardedAccess(st *State, ref, what, site string) {
+	if fe.scanning || st.guarded == nil {
+		return
+	}
+	lock, ok := st.guarded[ref]
+	if !ok {
+		return
+	}
+	held := sel(fe.heapTerm(st, "G_held", arraySort([]string{SInt}, SBool)), lock)
+	fe.addOb(st, "race", what+"@"+site, []string{"C19"}, held, "access to state that is shared with concurrently running goroutines needs its lock held")
 }
